@@ -16,7 +16,7 @@ PROPERTY = "C14"
 LEVEL = "exploration"
 BUDGET_S = {"quick": 40, "thorough": 600}
 FLOOR = {"quick": 1500, "thorough": 15000}
-MUST_REACH = ("contract_evaluations", "merges_observed", "refusals_judged")
+MUST_REACH = ("contract_evaluations", "merges_observed", "refusals_judged", "repeated_collapse_same_objects")
 RULE = ("lists of 1..24 contiguous addresses built to trigger chains of merges (sibling pairs at several levels, supernets "
         "before/after subnets, duplicates, /0, two /1, /32 pairs, notes on inputs), every spelling, both address classes, "
         "both platforms, all permutations of lists with <= 5 elements (thorough) or a few shuffles (quick); refusal cases: "
@@ -133,6 +133,12 @@ def execute(ctx, case: dict) -> None:
     union_all = bits.union_size([_cube_of(o) for o in objs]) == 1 << 32
     try:
         func(objs)
+        for again in case.get("again", []):
+            # history on the same objects: permutation / sub-list / single element / same list again
+            sub = [objs[i] for i in again if i < len(objs)]
+            if sub:
+                ctx.count("repeated_collapse_same_objects")
+                func(sub)
     except ValueError as ex:
         if case["cls"] == "AddressAg" and platform == "ios" and union_all:
             ctx.count("rejected_as_expected_ios_group_any")
@@ -217,13 +223,24 @@ def gen_cases(ctx):
             else:
                 bad = "str:10.0.0.0 0.0.0.3"
             items = [good, bad] if rng.random() < 0.5 else [bad, good]
+            if bad.startswith("10.") and not bad.startswith("10.1.0.0 0.255") and rng.random() < 0.5:
+                # a non-contiguous wildcard completely covered by an earlier address is refused all the same
+                cover = rng.choice(["10.0.0.0/8" if platform == "nxos" or cls == "Address" else "10.0.0.0 255.0.0.0",
+                                    "any" if cls == "Address" else ("0.0.0.0/0" if platform == "nxos" else "10.0.0.0 255.0.0.0")])
+                if cls == "AddressAg" and platform == "ios" and "/" in cover:
+                    cover = "10.0.0.0 255.0.0.0"
+                items = [cover, bad]
             yield {"k": "refuse", "cls": cls, "platform": platform, "items": items}
             continue
         cubes = build_list(rng)
         texts = [spell(rng, c, platform, cls) for c in cubes]
         if None in texts or not texts:
             continue
-        yield {"cls": cls, "platform": platform, "items": texts}
+        case = {"cls": cls, "platform": platform, "items": texts}
+        if rng.random() < 0.4:
+            n = len(texts)
+            case["again"] = [rng.sample(range(n), rng.randint(1, n)) for _ in range(rng.randint(1, 3))]
+        yield case
         if len(texts) <= 5:
             perms = list(itertools.permutations(texts))
             if not thorough:
